@@ -7,6 +7,9 @@ use std::io::{self, Read, Seek, SeekFrom, Write};
 use std::sync::atomic::{AtomicBool, AtomicU64, Ordering};
 use std::sync::Arc;
 
+/// runs of the write-fault campaigns that did not come back within their watchdog
+static HANGS_SEEN: AtomicU64 = AtomicU64::new(0);
+
 pub struct Ctl {
     pub calls: AtomicU64,
     pub fail_a: AtomicU64,
@@ -858,8 +861,11 @@ fn structural_campaign() -> u64 {
                     let _ = tx.send(r);
                 });
                 let v = if version == Version::V3 { 3 } else { 4 };
+                if HANGS_SEEN.load(Ordering::SeqCst) >= 3 {
+                    break;
+                }
                 match rx.recv_timeout(std::time::Duration::from_secs(20)) {
-                    Err(_) => println!("ORACLE set_len {}->{} (V{}) with a fault at its underlying write/seek/flush call {}: no progress within 20 s (hang)", from, to, v, k),
+                    Err(_) => { HANGS_SEEN.fetch_add(1, Ordering::SeqCst); println!("ORACLE set_len {}->{} (V{}) with a fault at its underlying write/seek/flush call {}: no progress within 20 s (hang)", from, to, v, k) }
                     Ok(Err(m)) => println!("ORACLE set_len {}->{} (V{}) with a fault at its underlying write/seek/flush call {}: panic: {}", from, to, v, k, m.chars().take(160).collect::<String>()),
                     Ok(Ok((_, bad))) => {
                         for b in bad.iter().take(2) {
@@ -942,8 +948,11 @@ pub fn write_campaign(seed: u64, max_runs: u64, ops_path: &str, impl_path: &str)
                 let _ = tx.send(r.map(|r| (r.bad, r.trace)));
             });
             evaluations += 1;
+            if HANGS_SEEN.load(Ordering::SeqCst) >= 3 {
+                break; // three runs that never came back are a verdict; every further one costs 20 s
+            }
             match rx.recv_timeout(std::time::Duration::from_secs(20)) {
-                Err(_) => println!("ORACLE fault at underlying write/seek/flush call {}: no progress within 20 s (hang)", k),
+                Err(_) => { HANGS_SEEN.fetch_add(1, Ordering::SeqCst); println!("ORACLE fault at underlying write/seek/flush call {}: no progress within 20 s (hang)", k) }
                 Ok(Err(m)) => println!("ORACLE fault at underlying write/seek/flush call {}: panic: {}", k, m.chars().take(160).collect::<String>()),
                 Ok(Ok((bad, trace))) => {
                     for b in bad.iter().take(2) {
